@@ -144,6 +144,19 @@ Theorem C14_eval_product_sound : forall negpow inv spow rest first r,
   la_chain negpow inv spow Mul Div first rest r /\ proper r.
 Proof. exact eval_product_sound. Qed.
 
+(* power chains a ^ - b ^ c, folded right to left *)
+Theorem C14_eval_power_sound : forall negpow inv spow, spow_numeric spow -> forall items r,
+  Forall (opt_pred proper) items -> eval_power negpow inv spow items = Ret r ->
+  la_power negpow inv spow items r /\ proper r.
+Proof. exact eval_power_sound. Qed.
+
+(* whole formula trees (sums of products of negations of powers of numbers, variables, array literals and
+   parenthesised trees, any depth and width): whenever evaluation returns, every operator application on the way was a
+   linear-algebra step, and the value is again a number or an array with more than one element *)
+Theorem C14_formula_evaluation_is_linear_algebra : forall negpow inv spow, spow_numeric spow -> forall e r,
+  wf_expr e -> eval_expr negpow inv spow e = Ret r -> la_eval negpow inv spow e r /\ proper r.
+Proof. exact eval_expr_sound. Qed.
+
 (* array literals: children of one common shape are stacked, anything ragged is refused *)
 Theorem C14_eval_array_spec : forall items r,
   eval_array items = Ret r ->
